@@ -94,7 +94,8 @@ static Reg r_fwd("mgrs_fwd", [](const Args& a) {
   // (northing shifted by the false northing 10^7 m, the addition the implementation itself performs) converts identically
   if (zone >= 1 && zone <= 60 && std::isfinite(x) && std::isfinite(y) && ((northp && y < 0) || (!northp && y > 1e7))) {   // a southern y of exactly 10^7 m keeps its label (documented: on the equator retain S)
     double y2 = northp ? y + 1e7 : y - 1e7;
-    if (northp ? (y2 < 1e7) : (y2 >= 0)) {
+    // (since fix d94b3ac also when y + 10^7 rounds to 10^7; not when y / 10^5 underflows to zero: then the point is taken to be on the equator, band N)
+    if (northp ? std::floor(y / 1e5) != 0 : (y2 >= 0)) {
       std::string s2 = "~untouched~"; std::string e2 = guarded([&] { MGRS::Forward(zone, !northp, x, y2, prec, s2); });
       if (e.empty() != e2.empty() || (e.empty() && s != s2))
         bad("equivalent-labelling", std::string("MGRS::Forward with hemisphere label ") + (northp ? "N" : "S") + " gives " + (e.empty() ? s : "an exception") + " but the same point labelled " + (northp ? "S" : "N") + " gives " + (e2.empty() ? s2 : "an exception"));
